@@ -388,3 +388,79 @@ def novelty_order(scripts, n=3):
         seen |= g
         out.append((sc, st))
     return out
+
+
+# ---------------------------------------------------------------------------
+# code -> spec: batch validation of recorded traces
+# ---------------------------------------------------------------------------
+
+_RE_TRACE = re.compile(r'<<"TRACE", (\d+), (\d+), (\d+)>>')
+
+
+def validate_traces(spec_dir, module, traces, tag, constants=None,
+                    invariants=('TraceInv',), diag=(), timeout=900,
+                    spec='TraceSpec'):
+    """Validate recorded `traces` (list of JSON-able dicts with an 'ev' list)
+    against spec_dir/module.tla (a *Trace module following the conventions of
+    specs/Transport/RekeyTrace.tla: TraceSpec, Progress, Report, constant
+    Strict, Diag* invariants).
+
+    Returns (res, verdicts): verdicts[i] = dict(matched=n, length=len,
+    accepted=bool, diagnosis=str|None).  A rejected trace is re-run alone with
+    Strict = FALSE and the Diag* invariants so that the failing clause and
+    the model state after the longest matched prefix are named."""
+    import json
+    wd = workdir(tag + '_tr')
+    path = os.path.join(wd, 'traces.json')
+    with open(path, 'w') as f:
+        json.dump(traces, f)
+    consts = dict(constants or {})
+
+    def cfg(name, strict, invs, constraint=True):
+        lines = ['CONSTANTS'] + [f'  {k} = {v}' for k, v in consts.items()]
+        lines += [f'  Strict = {"TRUE" if strict else "FALSE"}',
+                  f'SPECIFICATION {spec}', 'CHECK_DEADLOCK FALSE']
+        if constraint:
+            lines += ['CONSTRAINT Progress', 'POSTCONDITION Report']
+        lines += [f'INVARIANT {i}' for i in invs]
+        with open(os.path.join(spec_dir, name), 'w') as f:
+            f.write('\n'.join(lines) + '\n')
+        return name
+
+    name = cfg(f'_{tag}.cfg', True, invariants)
+    res = run(spec_dir, module, name, tag, workers=1, timeout=timeout,
+              env={'TRACE_FILE': path})
+    os.remove(os.path.join(spec_dir, name))
+    verdicts = {}
+    for m in _RE_TRACE.finditer(res.output):
+        i, got, n = int(m.group(1)), int(m.group(2)), int(m.group(3))
+        verdicts[i - 1] = dict(matched=got, length=n, accepted=got == n,
+                               diagnosis=None)
+    if len(verdicts) != len(traces) and not res.violation:
+        res.error = res.error or 'trace report incomplete'
+    for i, v in sorted(verdicts.items()):
+        if v['accepted'] or not diag:
+            continue
+        # diagnosis: follow the events only and ask which field disagrees
+        with open(path, 'w') as f:
+            json.dump([traces[i]], f)
+        name = cfg(f'_{tag}_d.cfg', False, diag, constraint=False)
+        r2 = run(spec_dir, module, name, tag + '_d', workers=1,
+                 timeout=timeout, env={'TRACE_FILE': path})
+        os.remove(os.path.join(spec_dir, name))
+        ev = traces[i]['ev']
+        k = v['matched']
+        nxt = ev[k] if k < len(ev) else None
+        if r2.violation:
+            tail = r2.output[r2.output.find('is violated'):][:3000]
+            st = re.findall(r'State \d+:.*?(?=\n\n|\Z)', tail, re.S)
+            v['diagnosis'] = (f'event {k + 1} {nxt}: model disagrees on '
+                              f'{r2.violation}; model state: '
+                              f'{st[-1][:1200] if st else "?"}')
+        else:
+            v['diagnosis'] = (f'event {k + 1} {nxt}: not enabled in the '
+                              f'model after the matched prefix')
+        cleanup(tag + '_d')
+    cleanup(tag + '_tr')
+    cleanup(tag)
+    return res, verdicts
